@@ -151,6 +151,9 @@ func (i *interpreter) mkError(msg string) value {
 // "stored": 9+n bytes); decompress inverts exactly what compress produced.
 func init() {
 	reg("cgo:_Cfunc_qlz_compress", func(fr *frame, args []value) value {
+		if fr.i.qlzReal {
+			return qlzRealCompress(fr, args)
+		}
 		src := cPtrArg(args[0])
 		dst := cPtrArg(args[1])
 		n := int(asInt64(args[2]))
@@ -195,6 +198,9 @@ func init() {
 		return uint64(total)
 	})
 	reg("cgo:_Cfunc_qlz_decompress", func(fr *frame, args []value) value {
+		if fr.i.qlzReal {
+			return qlzRealDecompress(fr, args)
+		}
 		src := cPtrArg(args[0])
 		dst := cPtrArg(args[1])
 		sm := src.mem[:cap(src.mem)]
